@@ -254,6 +254,38 @@ def sampler_paths(ck, dump, n, data):
                         ck.nontrivial("path|%s|%d|%s|%s|%s" % (kname, outl, mode, absstate.key_str(s0), sigma))
 
 
+def perm_target_part(ck, n):
+    """The final target of a path is the fixed-root joint density times the permutation density.  For every forest on
+    n points (one more than the kernels are enumerated on in the quick tier) the permutation density a particle carries
+    must be 1 / (number of compatible orders), the number taken from TLC (Perm.tla), and the weight the last step adds
+    must turn log_p into log_p_one."""
+    from . import c09
+    from phyclone.smc.swarm import TreeHolder
+    from phyclone.smc.utils import RootPermutationDistribution
+    from phyclone.tree import FSCRPDistribution, TreeJointDistribution
+    res = c09._tlc(n, True, True, "c08_perm")
+    tlc.require_ok(res, "Perm (counts for the path targets)")
+    ck.add_tlc("Perm.tla N=%d: number of compatible orders of every forest (final target of SMC paths)" % n, res)
+    data = absstate.make_data(n, dims=1, grid=4, seed=3, kind="int", outlier_prob=0.2)
+    td = TreeJointDistribution(FSCRPDistribution(1.7))
+    perm = RootPermutationDistribution()
+    seen = set()
+    for rec in res.json_prints:
+        key = absstate.canon(rec["st"])
+        if key in seen or absstate.data_ids(key) != set(range(n)):
+            continue
+        seen.add(key)
+        tree = absstate.build(key, data)
+        th = TreeHolder(tree, td, perm)
+        ck.evaluations += 1
+        want = -math.log(rec["count"])
+        if abs(float(th.log_pdf) - want) > 1e-9:
+            ck.violation("C08|path_target|permutation_density", "a particle holding %s carries the permutation log-density %.12g; the final target needs -log(%d) = %.12g" % (
+                absstate.key_str(key), float(th.log_pdf), rec["count"], want), {"state": absstate.to_json(key), "count": rec["count"]})
+        if len(key[0]) > 2:
+            ck.nontrivial("perm_target:" + absstate.key_str(key))
+
+
 def run(corrupt=None):
     ck = Check("C08")
     env.use_repo()
@@ -287,6 +319,7 @@ def run(corrupt=None):
         tlc.require_ok(rp, "Proposal tables for sampler paths")
         sampler_paths(ck, json.load(open(outp)), npath, absstate.make_data(npath, kind="flat", grid=3))
     clear_caches()
+    perm_target_part(ck, n + 1)
     alpha_history(ck, ck.seed)
     ck.rule = ("every (parent forest with < %d placed points incl. empty/outlier-only, next point) x 3 kernels x outlier proposal "
                "prob {0, 0.1} x perm dist {off,on} x parent tree {given, rebuilt from particle}; non-trivial = support with > 1 candidate" % n)
